@@ -109,7 +109,7 @@ func checkPolicy(doc *iamapi.PolicyDocument) (string, error) {
 }
 
 func TestPropIamPolicy(t *testing.T) {
-	vlib.Check(t, 3000, 60000, func(t *rapid.T) {
+	vlib.Check(t, 3000, 20000, func(t *rapid.T) {
 		n := rapid.IntRange(0, 4).Draw(t, "statements")
 		doc := &iamapi.PolicyDocument{Version: "2012-10-17"}
 		for i := 0; i < n; i++ {
